@@ -31,7 +31,7 @@ HSOf(hk, last, newLast) ==
 
 Init ==
   /\ recs = <<>> /\ segs = <<>> /\ handed = 0 /\ synced = 0 /\ pproc = 0 /\ ppow = 0
-  /\ enti = 0 /\ mode = "none" /\ opt = FALSE /\ locks = 1
+  /\ enti = 0 /\ mode = "none" /\ opt = FALSE /\ locks = [l |-> 1, p |-> 0]
   /\ img = NoImg /\ snapq = Snap0 /\ res = NoRes
   /\ ncall = 0 /\ ncut = 0
 
@@ -90,9 +90,27 @@ DoSnap(i, t) ==
   /\ SaveSnapshot([i |-> i, t |-> t])
   /\ ncall' = ncall + 1 /\ UNCHANGED ncut
 
-DoRelease(i) == ReleaseLockTo(i) /\ locks' # locks /\ UNCHANGED <<ncall, ncut>>
+\* the node releases at the index of a snapshot it has saved, after wal.Sync(): the marker
+\* and a hard state that commits it are in the prefix that survives a crash
+\* (node/raft.go: "Force WAL to fsync its hard state before Release() releases");
+\* Mutant "release-anywhere": at any index, without the sync
+DoSync       == Sync /\ (handed # Len(recs) \/ synced # Len(recs)) /\ UNCHANGED <<ncall, ncut>>
+DoRelease(i) == /\ (Mutant = "release-anywhere" \/ \E s \in ValidSnaps(Pre(recs, CrashFloor)) : s.i = i)
+                /\ (IF Mutant = "release-keeps-one-less"
+                    THEN /\ mode = "append"
+                         /\ LET ge == {k \in 1..Len(segs) : segs[k].idx >= i}
+                                keep == IF ge = {} THEN Len(segs) ELSE CHOOSE k \in ge : \A j \in ge : k <= j
+                            IN locks' = [locks EXCEPT !.l = Max2(@, keep)]
+                         /\ UNCHANGED <<recs, segs, handed, synced, pproc, ppow, enti, mode, opt, img, snapq, res>>
+                    ELSE ReleaseLockTo(i))
+                /\ locks' # locks /\ UNCHANGED <<ncall, ncut>>
+DoPurge(max, k) == Purge(max, k) /\ UNCHANGED <<ncall, ncut>>
 DoClose      == Close /\ UNCHANGED <<ncall, ncut>>
-DoRestart    == Restart /\ ncall < MaxCalls /\ UNCHANGED <<ncall, ncut>>
+\* the node restarts at the newest marker ValidSnapshotEntries offers
+DoRestart    == /\ mode = "closed" /\ ncall < MaxCalls
+                /\ LET V == ValidSnaps(OnDisk(recs, Len(recs)))
+                   IN V # {} /\ Restart(Newest(V))
+                /\ UNCHANGED <<ncall, ncut>>
 
 DoCrashProc(n)        == WithCrash /\ CrashProc(n) /\ UNCHANGED <<ncall, ncut>>
 DoCrashPower(n, tail) == WithCrash /\ CrashPower(n, tail) /\ UNCHANGED <<ncall, ncut>>
@@ -104,6 +122,8 @@ Next ==
   \/ \E hk \in HSKinds, f \in 1..MaxIdx + 1, n \in 0..2, cut \in BOOLEAN : DoSave(hk, f, n, cut)
   \/ \E i \in 1..MaxIdx, t \in Terms : DoSnap(i, t)
   \/ \E i \in 1..MaxIdx + 1 : DoRelease(i)
+  \/ \E max \in 0..1, k \in 1..2 : DoPurge(max, k)
+  \/ DoSync
   \/ DoClose
   \/ DoRestart
   \/ \E n \in 0..Len(recs) : DoCrashProc(n)
